@@ -1,4 +1,5 @@
 """C15 — boundary clocks propagate TLVs faithfully and break path-trace loops (TLV-1..8)."""
+import re
 from sa import mir, hir, dataflow as df, conds as cnd, intervals as iv
 from sa.stores import stores
 from sa.callgraph import callgraph
@@ -28,13 +29,54 @@ NOT_DECIDED = ("arrival-order / at-most-once delivery across ports (queue semant
 SPEC_PROPAGATE = [(0x0008, 0x0009), (0x4000, 0x7FFF)]
 
 
+def check_loop_scan(rep, prog, cb, loop_blocks):
+    """TLV-3c: the loop-detected exit is decided by scanning the WHOLE value of the received PATH_TRACE TLV: the
+    deciding literal is any(<ChunksExact over tlv.value, chunk 8>, |ci| ci == own clock identity) - the iterator's
+    type shows there is no take/skip adaptor, its source is the TLV's value field itself (not a sub-slice)."""
+    c = cnd.conds(prog, cb)
+    d = df.defs(cb)
+    for bi in loop_blocks:
+        ok, seen = False, []
+        for l in c.must_literals(bi):
+            if l[0] != "bool" or l[2] is not True:
+                continue
+            t = df.strip(l[1])
+            seen.append(cnd.lit_canon(l, cb))
+            if t[0] != "call" or t[2] != "any" or "<ChunksExact as " not in t[1] or len(t[3]) != 2:
+                continue
+            it = df.strip(t[3][0])
+            src = None
+            if it[0] == "path" and it[1][0] == "local" and not it[2]:
+                ds = d.whole.get(it[1][1], [])
+                if len(ds) == 1 and ds[0][2][0] == "call":
+                    src = df.strip(c.prov.call_tree(ds[0][2][1]))
+            elif it[0] == "call":
+                src = it
+            if src is None or src[0] != "call" or src[2] != "chunks_exact" or len(src[3]) != 2:
+                continue
+            base = df.canon(src[3][0], cb)
+            width = df.canon(src[3][1], cb)
+            clo = df.strip(t[3][1])
+            caps = " ".join(df.canon(x, cb) for _, x in clo[3]) if clo[0] == "agg" else ""
+            whole_value = re.search(r"\.value\)*$", base) is not None and not any(x in base for x in ("index", "Range", "split", "get("))
+            if whole_value and width == "8" and "default_ds.clock_identity" in caps:
+                ok = True
+                rep.ok("TLV-3", cb.key, "loop check scans the whole received path",
+                       detail={"iterator": "chunks_exact(%s, 8)" % base, "compared_with": caps}, where=cb.loc())
+        if not ok:
+            rep.violation("TLV-3", cb.key, "loop check scans the whole received path",
+                          "the loop-detected exit is decided by %s: cannot show that every 8-byte entry of the received "
+                          "PATH_TRACE value is compared with the own clock identity (a truncated scan lets a loop "
+                          "through when the own identity sits beyond the cut)" % seen, where=cb.loc())
+
+
 def run(ctx):
     rep = ctx.report
     prog = ctx.prog("default")
     cg = callgraph(prog)
     rep.rule("TLV-1", "ForwardTLV only under announce_propagate(); accepted types = IEEE Table 52", floor=2)
     rep.rule("TLV-2", "every TLV append is gated on room + sender and paired with the margin decrement", floor=2)
-    rep.rule("TLV-3", "own path trace = received path + own identity; a looped Announce has no effect", floor=2)
+    rep.rule("TLV-3", "own path trace = received path + own identity; a looped Announce (own identity anywhere in the received path) has no effect", floor=3)
     rep.rule("TLV-4", "library assertion on provided TLVs is not stronger than the provider contract", floor=1)
     rep.rule("TLV-5", "minimum TLV element size agrees between builder and parsers", floor=1)
     rep.rule("TLV-6", "both daemon port tasks use the TLV forwarder alike", floor=1)
@@ -217,6 +259,7 @@ def run(ctx):
                 rep.violation("TLV-3", cb.key, "loop check", "the parent-Announce critical section has no loop-detected exit",
                               where=cb.loc())
                 continue
+            check_loop_scan(rep, prog, cb, loop_blocks)
             anc = set()
             st = list(loop_blocks)
             while st:
